@@ -457,7 +457,8 @@ define(
     'C18', 'exploration',
     [('common_classes',
       ['EstimatedTimeSeriesWithConfidenceInterval.__init__'], False),
-     ('tbr', ['TBR._construct_analysis_data'], False)],
+     ('tbr', ['TBR._construct_analysis_data'], False),
+     ('tbr_iroas', None, False)],
     ENGINE_TRUST[:3] + [
         'the series container is a DataFrame: after DataFrame.__init__ it has '
         'a set of column names and real cells; df[a] > df[b] and np.any as '
@@ -469,7 +470,10 @@ define(
     'on every row (KeyError / ValueError otherwise), so every series of a '
     'report that was built satisfies the ordering; the aggregated analysis '
     'frame the series are computed from is ordered by (group, date) '
-    '(groupby sorts by its keys).  That the report '
+    '(groupby sorts by its keys); the fixed-cost shortcut of the cost '
+    'series is taken exactly when pre-period spend of all groups plus '
+    'control test-period spend is negligible (_is_fixed_cost_scenario).  '
+    'That the report '
     'succeeds for every fitted experiment, counterfactual + difference = '
     'observed, residuals and the last cumulative row against the TBR '
     'posterior: bounded run-time contract vs recomputation.',
